@@ -181,11 +181,13 @@ func newSorts(keyMode bool) *Sorts {
 		"(declare-fun elem_arr (Int) Int)",
 		"(declare-fun elem_idx (Int) Int)",
 		"(declare-fun refkind (Int) Int)",
+		"(declare-fun refbase (Int) Int)",
+		"(assert (forall ((x Int)) (! (=> (>= x 0) (= (refbase x) x)) :pattern ((refbase x))))) ;bg",
 		"(declare-fun fieldloc (Int Int) Int)",
 		"(declare-fun strcat (Int Int) Int)",
 		"(declare-fun errcause (Iface) Iface)",
 		"(declare-fun bytes2str ((Array Int Int) Int Int) Int)",
-		"(assert (forall ((a Int) (i Int)) (! (and (= (elem_arr (elemref a i)) a) (= (elem_idx (elemref a i)) i) (< (elemref a i) 0) (= (refkind (elemref a i)) 1)) :pattern ((elemref a i))))) ;bg",
+		"(assert (forall ((a Int) (i Int)) (! (and (= (elem_arr (elemref a i)) a) (= (elem_idx (elemref a i)) i) (< (elemref a i) 0) (= (refkind (elemref a i)) 1) (= (refbase (elemref a i)) (refbase a))) :pattern ((elemref a i))))) ;bg",
 		"(define-fun tdiv ((x Int) (y Int)) Int (ite (>= x 0) (ite (> y 0) (div x y) (- (div x (- y)))) (ite (> y 0) (- (div (- x) y)) (div (- x) (- y)))))",
 		"(define-fun trem ((x Int) (y Int)) Int (- x (* y (tdiv x y))))",
 		"(declare-fun bor (Int Int) Int)",
@@ -349,7 +351,7 @@ func (s *Sorts) subFunc(si *structInfo, field int) string {
 		s.decls = append(s.decls,
 			fmt.Sprintf("(declare-fun %s (Int) Int)", name),
 			fmt.Sprintf("(declare-fun inv_%s (Int) Int)", name),
-			fmt.Sprintf("(assert (forall ((p Int)) (! (and (= (inv_%s (%s p)) p) (< (%s p) 0) (= (refkind (%s p)) %d)) :pattern ((%s p))))) ;bg", name, name, name, name, k, name))
+			fmt.Sprintf("(assert (forall ((p Int)) (! (and (= (inv_%s (%s p)) p) (< (%s p) 0) (= (refkind (%s p)) %d) (= (refbase (%s p)) (refbase p))) :pattern ((%s p))))) ;bg", name, name, name, name, k, name, name))
 	}
 	return name
 }
